@@ -26,6 +26,26 @@ def sl_count(sl, n):
 def sl_elem(sl, n, j):
     return sl_lo(sl, n) + j * sl_step(sl.step)
 
+# negative steps (outside C15's stated domain, but the selectors are used with them by the converters, C04 / C11):
+# Python Language Reference 3.3.1: missing start = n-1, missing stop = "before index 0"; bounds clipped into -1..n-1
+def sn_bound(b, n, dflt):
+    return dflt if b is None else ((b + n if b + n > -1 else -1) if b < 0 else (b if b < n else n - 1))
+
+def sn_lo(sl, n):
+    return sn_bound(sl.start, n, n - 1)
+
+def sn_hi(sl, n):
+    return sn_bound(sl.stop, n, -1)
+
+def sn_step(t):
+    return -1 if t is None else t
+
+def sn_count(sl, n):
+    return (sn_lo(sl, n) - sn_hi(sl, n) - sn_step(sl.step) - 1) // (0 - sn_step(sl.step)) if sn_lo(sl, n) > sn_hi(sl, n) else 0
+
+def sn_elem(sl, n, j):
+    return sn_lo(sl, n) + j * sn_step(sl.step)
+
 def smp_count(N, n):
     return N if n > N else n
 
@@ -62,6 +82,22 @@ def register(reg):
                      ensures=['len(result) == sl_count(self._slice, length)',
                               'forall(0, len(result), lambda j: result[j] == sl_elem(self._slice, length, j))'],
                      canaries=['len(result) == 0']))
+    NEG_REQ = ['length >= 0', 'not (self._slice.step is None)', 'self._slice.step <= -1']
+    GNEG = Contract(F, 'Slice.gen_indices', {'self': SLICE, 'length': Int}, name='Slice.gen_indices[negative step]', requires=NEG_REQ, yields=Int,
+                    ensures=['len(out) == sn_count(self._slice, length)',
+                             'forall(0, len(out), lambda j: out[j] == sn_elem(self._slice, length, j))',
+                             'forall(0, len(out), lambda j: 0 <= out[j] and out[j] < length)'],
+                    canaries=['len(out) == 0', 'len(out) > 0'])
+    reg.add(GNEG, callable_=False)
+    # inside the negative-step variants the generator is called through its negative-step contract
+    reg.add_alternative(GNEG, lambda eng, fn, args, st: bool(eng.frames) and eng.frames[0].contract is not None
+                        and '[negative step]' in eng.frames[0].contract.name)
+    reg.add(Contract(F, 'Slice.count', {'self': SLICE, 'length': Int}, name='Slice.count[negative step]', requires=NEG_REQ, returns=Int,
+                     ensures=['result == sn_count(self._slice, length)'], canaries=['result == 0']), callable_=False)
+    reg.add(Contract(F, 'Slice.indices', {'self': SLICE, 'length': Int}, name='Slice.indices[negative step]', requires=NEG_REQ, returns=KView(Int),
+                     ensures=['len(result) == sn_count(self._slice, length)',
+                              'forall(0, len(result), lambda j: result[j] == sn_elem(self._slice, length, j))'],
+                     canaries=['len(result) == 0']), callable_=False)
     # ---------------------------------------------------------------- Sample
     reg.add(Contract(F, 'Sample.__init__', {'self': KRec('Sample'), 'sample_size': Int},
                      raises={'ValueError': 'sample_size < 1'}, modifies=[('self._sample_size', Int)],
